@@ -269,7 +269,7 @@ fn gen_attrs(ch: &mut Ch, thorough: bool) -> Option<Case> {
 
 /// Debug / Default attribute flavours
 fn gen_misc(ch: &mut Ch, _thorough: bool) -> Option<Case> {
-    let cases: [(&[&str], &str); 39] = [
+    let cases: [(&[&str], &str); 42] = [
         (&["Debug"], "pub struct X<T>(#[debug(ignore)] pub T, pub Option<T>);"),
         (&["Debug"], "pub struct X<T> { #[debug(transparent)] pub a: Vec<T>, pub b: u8 }"),
         (&["Debug"], "pub enum X<'a, T> { A(#[debug(ignore)] &'a T), B { #[debug(transparent)] x: T }, C }"),
@@ -315,6 +315,11 @@ fn gen_misc(ch: &mut Ch, _thorough: bool) -> Option<Case> {
         (&["Default"], "#[default(Self::MK)] pub struct X<T>(pub Option<T>); /*extra*/ impl<T> X<T> { pub const MK: Self = X(None); }"),
         (&["Default", "Clone"], "#[default(\"lit\")] pub struct X<T> { pub a: Vec<T> } /*extra*/ impl<T> ::core::convert::From<&str> for X<T> { fn from(_: &str) -> Self { X { a: Vec::new() } } }"),
         (&["Default"], "#[default(Self::MK)] pub enum X<T> { A(T), B } /*extra*/ impl<T> X<T> { pub const MK: Self = X::B; }"),
+        // lint level attributes on the item cover the generated impls as they cover the impls of the standard derives
+        // (the impls repeat the generic parameters and the field types)
+        (&["Clone", "Debug", "Default", "Ord", "PartialOrd", "Eq", "PartialEq", "Hash"], "#[allow(non_camel_case_types, non_upper_case_globals)] pub struct X<t, const n: usize>(pub [t; n]);"),
+        (&["Clone", "Debug", "PartialEq", "Eq", "Hash"], "#[allow(non_camel_case_types)] pub enum X<t> { A(t), B }"),
+        (&["Clone", "Debug", "PartialEq"], "#[allow(deprecated)] pub struct X<T>(pub old::Old<T>, #[deprecated] pub u8); /*extra*/ pub mod old { #[deprecated] #[derive(Clone, Debug, PartialEq)] pub struct Old<T>(pub T); }"),
     ];
     let (list, item) = *ch.of(&cases);
     let entry = *ch.of(&Entry::BOTH);
